@@ -581,4 +581,47 @@ theorem pbp_mid_last (mid : List Elem) (last : Elem) (hmid : ∀ e ∈ mid, e.ne
     · simp [hmid m (by simp)] at h
     · exact ih (fun e he => hmid e (List.mem_cons_of_mem _ he)) h
 
+/-! ### no duplicates in the link list -/
+
+theorem dedup_nodup {α} [DecidableEq α] (l : List α) : (dedup l).Nodup := by
+  induction l with
+  | nil => simp [dedup]
+  | cons a l ih =>
+    simp only [dedup]
+    split
+    · exact ih
+    · rename_i h
+      exact List.nodup_cons.mpr ⟨by rw [mem_dedup]; exact h, ih⟩
+
+theorem directLinks_nodup (F : List Tree) (q : Pos) : (directLinks F q).Nodup := by
+  unfold directLinks
+  split
+  · split
+    · rename_i t _
+      rw [List.Nodup, List.pairwise_map]
+      refine (List.nodup_range (n := t.kids.length)).imp ?_
+      intro a b h heq
+      simp only [Prod.mk.injEq, List.append_cancel_left_eq, List.cons.injEq, and_true, true_and] at heq
+      exact h heq
+    · simp
+  · simp
+
+theorem flatMap_directLinks_nodup (F : List Tree) (l : List Pos) (h : l.Nodup) :
+    (l.flatMap (directLinks F)).Nodup := by
+  simp only [List.Nodup, List.pairwise_flatMap]
+  refine ⟨fun a _ => directLinks_nodup F a, ?_⟩
+  exact h.imp (fun {a₁ a₂} hne x hx y hy heq => by
+    obtain ⟨x1, x2⟩ := x
+    obtain ⟨y1, y2⟩ := y
+    have h1 := ((mem_directLinks F a₁ x1 x2).mp hx).1
+    have h2 := ((mem_directLinks F a₂ y1 y2).mp hy).1
+    cases heq
+    exact hne (h1.symm.trans h2))
+
+theorem fwalk_single (F : List Tree) (k : Nat) (p : List Tree) (h : fwalk F [k] = some p) :
+    ∃ t, F[k]? = some t ∧ p = [t] := by
+  obtain ⟨t, ht, hw⟩ := (fwalk_cons F k [] p).mp h
+  rw [walk_nil] at hw; cases hw
+  exact ⟨t, ht, rfl⟩
+
 end Finam.Validate
